@@ -229,6 +229,7 @@ qb_log_real_va_(struct qb_log_callsite *cs, va_list ap)
 	if (max_line_length > QB_LOG_MAX_LEN) {
 		str = malloc(max_line_length);
 		if (!str) {
+			qb_atomic_int_set(&in_logger, QB_FALSE);
 			return;
 		}
 	}
